@@ -1,5 +1,7 @@
 import VtModel.Mvt
 import VtProofs.Prim
+import VtProofs.MvtTables
+import VtProofs.MvtOps
 /-!
 # C11 – updating vector-tile properties leaves everything else untouched; PBF round trips
 
@@ -13,7 +15,7 @@ entries.  Decoding and re-encoding any valid vector tile without changes preserv
 All theorems are about the model `VtModel.Prim` / `VtModel.Mvt` (tied to the code by `bin/check C11`).
 -/
 namespace VtProps.C11
-open VtModel VtModel.Prim VtModel.Mvt VtProofs.Prim
+open VtModel VtModel.Prim VtModel.Mvt VtProofs.Prim VtProofs.MvtTables VtProofs.MvtOps
 
 /-! ## 1. primitives -/
 
@@ -67,5 +69,215 @@ example : writeVarint 300 = [0xAC, 0x02] := by
   rw [writeVarint]; simp; rw [writeVarint]; simp
 example : readVarint ⟨0, [0xAC, 0x02, 7]⟩ = .ok (300, ⟨2, [7]⟩) := by decide
 example : readSVarint ⟨0, [0x95, 0x01]⟩ = .ok (-75, ⟨2, []⟩) := by decide
+
+/-! ## 2. property tables
+
+`Sorted p` is the representation invariant of a `BTreeMap` (keys strictly increasing); every
+property set the code handles is one (`decodeTags_sorted`, `join_sorted`). -/
+
+/-- Re-indexing: writing a property set into *any* key/value tables (`encode_tag_ids`, which appends
+    missing entries and re-uses the first occurrence of present ones – duplicates and unused entries
+    allowed) and reading the tags back from the grown tables gives the property set back. -/
+theorem tags_roundtrip (p : Props) (hs : Sorted p) (keys : List Bytes) (vals : List Value) :
+    decodeTags (encodeTags keys vals p).1 (encodeTags keys vals p).2.1 (encodeTags keys vals p).2.2 = .ok p :=
+  decodeTags_encodeTags p hs keys vals
+
+/-- tags written earlier keep their meaning when later features append to the tables -/
+theorem tags_stable (keys ek : List Bytes) (vals ev : List Value) (tags : List Nat) (p : Props)
+    (h : decodeTags keys vals tags = .ok p) : decodeTags (keys ++ ek) (vals ++ ev) tags = .ok p :=
+  decodePairs_extend keys ek vals ev tags [] p h
+
+/-- whatever `decode_tag_ids` returns is a well-formed map -/
+theorem decoded_props_sorted (keys : List Bytes) (vals : List Value) (tags : List Nat) (p : Props)
+    (h : decodeTags keys vals tags = .ok p) : Sorted p :=
+  decodeTags_sorted keys vals tags p h
+
+/-! ## 3. the join -/
+
+/-- every property set stored in the data map is a well-formed map (they are `BTreeMap`s built by
+    `GeoProperties::from_iter`) -/
+def DataSorted (m : DataMap) : Prop := ∀ k p, dlookup k m = some p → Sorted p
+
+/-- a feature without the id field is kept unchanged -/
+theorem join_no_id (a : UpdArgs) (fmt : Value → Bytes) (m : DataMap) (p : Props)
+    (h : plookup a.idTiles p = none) : joinFn a fmt m p = some p := by
+  simp [joinFn, h]
+
+/-- matched, `replace_properties`: the new properties are exactly the data row -/
+theorem join_replace (a : UpdArgs) (fmt : Value → Bytes) (m : DataMap) (p np : Props) (id : Value)
+    (h : plookup a.idTiles p = some id) (hm : dlookup (fmt id) m = some np) (hr : a.replace = true) :
+    joinFn a fmt m p = some np := by
+  simp [joinFn, h, hm, hr]
+
+/-- matched, merge: the old properties with every pair of the data row inserted (row wins) -/
+theorem join_merge (a : UpdArgs) (fmt : Value → Bytes) (m : DataMap) (p np : Props) (id : Value)
+    (h : plookup a.idTiles p = some id) (hm : dlookup (fmt id) m = some np) (hr : a.replace = false) :
+    joinFn a fmt m p = some (pupdate p np) := by
+  simp [joinFn, h, hm, hr]
+
+/-- unmatched features are removed iff `remove_non_matching`, and otherwise kept unchanged -/
+theorem join_unmatched (a : UpdArgs) (fmt : Value → Bytes) (m : DataMap) (p : Props) (id : Value)
+    (h : plookup a.idTiles p = some id) (hm : dlookup (fmt id) m = none) :
+    (joinFn a fmt m p = none ↔ a.remove = true) ∧ (a.remove = false → joinFn a fmt m p = some p) := by
+  cases hr : a.remove <;> simp [joinFn, h, hm, hr]
+
+/-- a feature is dropped only for that reason -/
+theorem join_none_iff (a : UpdArgs) (fmt : Value → Bytes) (m : DataMap) (p : Props) :
+    joinFn a fmt m p = none ↔
+      ∃ id, plookup a.idTiles p = some id ∧ dlookup (fmt id) m = none ∧ a.remove = true := by
+  unfold joinFn
+  cases h : plookup a.idTiles p with
+  | none => simp
+  | some id =>
+    cases hm : dlookup (fmt id) m with
+    | none => cases hr : a.remove <;> simp [hm]
+    | some np => simp [hm]
+
+theorem join_sorted (a : UpdArgs) (fmt : Value → Bytes) (m : DataMap) (hm : DataSorted m) (p p' : Props)
+    (hs : Sorted p) (h : joinFn a fmt m p = some p') : Sorted p' := by
+  unfold joinFn at h
+  cases hid : plookup a.idTiles p with
+  | none => simp [hid] at h; subst h; exact hs
+  | some id =>
+    simp only [hid] at h
+    cases hl : dlookup (fmt id) m with
+    | none =>
+      simp only [hl] at h
+      split at h
+      · simp at h
+      · simp at h; subst h; exact hs
+    | some np =>
+      simp only [hl] at h
+      have hnp : Sorted np := hm _ _ hl
+      split at h
+      · simp at h; subst h; exact hnp
+      · simp at h; subst h; exact pupdate_sorted np p hs
+
+/-! ## 4. frame theorem -/
+
+theorem mapLayers_spec (g : Layer → Outcome Layer) : ∀ (ls ls' : List Layer), mapLayers g ls = .ok ls' →
+    ls'.length = ls.length ∧ ∀ (i : Nat) (l : Layer), ls[i]? = some l → ∃ l', ls'[i]? = some l' ∧ g l = .ok l' := by
+  intro ls
+  induction ls with
+  | nil => intro ls' h; simp [mapLayers] at h; subst h; simp
+  | cons x t ih =>
+    intro ls' h
+    simp only [mapLayers] at h
+    cases hx : g x with
+    | err => simp [hx] at h
+    | panic => simp [hx] at h
+    | ok x' =>
+      simp only [hx] at h
+      cases ht : mapLayers g t with
+      | err => simp [ht] at h
+      | panic => simp [ht] at h
+      | ok t' =>
+        simp only [ht, Outcome.ok.injEq] at h
+        subst h
+        obtain ⟨hl, hi⟩ := ih t' ht
+        refine ⟨by simp [hl], ?_⟩
+        intro i l hil
+        cases i with
+        | zero => simp at hil; subst hil; exact ⟨x', by simp, hx⟩
+        | succ j => simpa using hi j l (by simpa using hil)
+
+/-- **C11 (frame).**  If the update of a tile succeeds then, position by position:
+    * a layer with another name is returned *unchanged* (same tables, same tags, same bytes);
+    * the named layer keeps name, extent and version; its features are the old ones in the old order,
+      each with the same id, geometry type and geometry bytes, a feature being absent exactly when the
+      join says so (`join_none_iff`), and the property set of a retained feature is
+      `joinFn` of its old property set (`join_no_id`, `join_replace`, `join_merge`, `join_unmatched`);
+    for every valid tile, whatever duplicates / unused entries its tables hold, and for every way
+    `PropertyManager::from_iter` may pre-fill the new tables (`mk`). -/
+theorem update_frame (mk : List Props → List Bytes × List Value) (a : UpdArgs) (fmt : Value → Bytes)
+    (m : DataMap) (hm : DataSorted m) (t t' : Tile) (h : updateTile mk a fmt m t = .ok t') :
+    t'.layers.length = t.layers.length ∧
+    ∀ (i : Nat) (l : Layer), t.layers[i]? = some l → ∃ l', t'.layers[i]? = some l' ∧
+      (l.name ≠ a.layer → l' = l) ∧
+      (l.name = a.layer →
+        l'.name = l.name ∧ l'.extent = l.extent ∧ l'.version = l.version ∧
+        ∃ sfs, semFeatures l.keys l.vals l.features = some sfs ∧
+          semFeatures l'.keys l'.vals l'.features =
+            some (sfs.filterMap (fun sf => (joinFn a fmt m sf.props).map (fun p => { sf with props := p })))) := by
+  unfold updateTile at h
+  cases hml : mapLayers (fun l => if l.name = a.layer then filterMapProps mk (joinFn a fmt m) l else .ok l) t.layers with
+  | err => simp [hml] at h
+  | panic => simp [hml] at h
+  | ok ls =>
+    simp only [hml, Outcome.ok.injEq] at h
+    subst h
+    obtain ⟨hlen, hi⟩ := mapLayers_spec _ _ _ hml
+    refine ⟨hlen, ?_⟩
+    intro i l hil
+    obtain ⟨l', hl', hg⟩ := hi i l hil
+    refine ⟨l', hl', ?_, ?_⟩
+    · intro hne
+      simp [hne] at hg
+      exact hg.symm
+    · intro he
+      simp only [he, if_true] at hg
+      have := filterMapProps_frame mk (joinFn a fmt m) (fun p p' hs hj => join_sorted a fmt m hm p p' hs hj) l l' hg
+      rw [he] at this ⊢
+      exact this
+
+/-- the update can only fail by panicking on a tile whose tags point outside the tables (the
+    `.unwrap()` in `filter_map_properties`); it never returns `Err` after a successful decode -/
+theorem update_never_err (mk : List Props → List Bytes × List Value) (a : UpdArgs) (fmt : Value → Bytes)
+    (m : DataMap) (t : Tile) : updateTile mk a fmt m t ≠ .err := by
+  have hf : ∀ (keys : List Bytes) (vals : List Value) (f : Props → Option Props) (fs : List Feature),
+      fmpDecode keys vals f fs ≠ .err := by
+    intro keys vals f fs
+    induction fs with
+    | nil => simp [fmpDecode]
+    | cons x xs ih =>
+      simp only [fmpDecode]
+      cases decodeTags keys vals x.tags with
+      | ok p =>
+        simp only
+        cases hr : fmpDecode keys vals f xs with
+        | ok rest => cases f p <;> simp
+        | err => exact absurd hr ih
+        | panic => simp
+      | err => simp
+      | panic => simp
+  have hl : ∀ l : Layer, (if l.name = a.layer then filterMapProps mk (joinFn a fmt m) l else .ok l) ≠ .err := by
+    intro l
+    split
+    · unfold filterMapProps
+      cases hd : fmpDecode l.keys l.vals (joinFn a fmt m) l.features with
+      | ok fps => simp
+      | err => exact absurd hd (hf _ _ _ _)
+      | panic => simp
+    · simp
+  have hm' : ∀ ls : List Layer, mapLayers (fun l => if l.name = a.layer then filterMapProps mk (joinFn a fmt m) l else .ok l) ls ≠ .err := by
+    intro ls
+    induction ls with
+    | nil => simp [mapLayers]
+    | cons x xs ih =>
+      simp only [mapLayers]
+      cases hx : (if x.name = a.layer then filterMapProps mk (joinFn a fmt m) x else Outcome.ok x) with
+      | ok x' =>
+        simp only
+        cases hxs : mapLayers (fun l => if l.name = a.layer then filterMapProps mk (joinFn a fmt m) l else .ok l) xs with
+        | ok r => simp
+        | err => exact absurd hxs ih
+        | panic => simp
+      | err => exact absurd hx (hl x)
+      | panic => simp
+  unfold updateTile
+  cases hq : mapLayers (fun l => if l.name = a.layer then filterMapProps mk (joinFn a fmt m) l else .ok l) t.layers with
+  | ok r => simp
+  | err => exact absurd hq (hm' _)
+  | panic => simp
+
+-- non-vacuity: a one-feature layer, id "a1" matched, merge
+example :
+    let l : Layer := { extent := 4096, features := [{ id := some 7, tags := [0, 0], gtype := 1, geom := [9, 2, 2] }],
+                       name := [114], keys := [[105, 100]], vals := [.str [97, 49]], version := 2 }
+    let a : UpdArgs := { layer := [114], idTiles := [105, 100], idData := [105, 100], replace := false, remove := true, includeId := false }
+    let m : DataMap := [([97, 49], [([110], .uint 5)])]
+    (updateTile noTables a (fmtValue []) m ⟨[l]⟩).map (fun t => t.layers.map dumpLayer)
+      = .ok ["72:4096:2:7,1,090202,6964=s6131&6e=u5"] := by
+  decide
 
 end VtProps.C11
